@@ -508,7 +508,7 @@ func computeFacts(fn *ssa.Function) *FuncFacts {
 		s := st.clone()
 		for _, ins := range b.Instrs {
 			switch ins.(type) {
-			case ssa.CallInstruction, *ssa.Return, *ssa.Store, *ssa.MapUpdate:
+			case ssa.CallInstruction, *ssa.Return, *ssa.Store, *ssa.MapUpdate, *ssa.If, *ssa.Send:
 				ff.at[ins] = s.clone()
 			}
 			ff.step(s, ins)
